@@ -11,7 +11,7 @@ package server
 //@      // ---- the request's own allocation: the one keyed by the 5-tuple the datagram arrived on (C04)
 //@ spec func ownAlloc(req Request) *allocation.Allocation = allocOf(req.AllocationManager, req.SrcAddr, localAddrOf(req.Conn), 0)
 //@ spec func reqWF(req Request) bool = req.Log != nil && req.Conn != nil && req.AllocationManager != nil && req.AllocationManager.allocations != nil
-//@ spec func ownWF(req Request) bool = ownAlloc(req) != nil ==> (allocWF(ownAlloc(req)) && permTimers(ownAlloc(req)) && chanTimers(ownAlloc(req)) && timersDisjoint(ownAlloc(req)) && chansWF(ownAlloc(req)) && chanPeersNonNil(ownAlloc(req)))
+//@ spec func ownWF(req Request) bool = ownAlloc(req) != nil ==> (allocWF(ownAlloc(req)) && permTimers(ownAlloc(req)) && chanTimers(ownAlloc(req)) && timersDisjoint(ownAlloc(req)) && chansWF(ownAlloc(req)) && chanPeersNonNil(ownAlloc(req)) && permKeysOK(ownAlloc(req)))
 //@ spec func ownTuple(ft *allocation.FiveTuple, req Request) bool = ft != nil && ft.SrcAddr == req.SrcAddr && ft.DstAddr == localAddrOf(req.Conn) && int(ft.Protocol) == 0
 
 //@ func handleSendIndication
@@ -151,3 +151,29 @@ package server
 //@   at-call crypto/hmac.Equal assert [C03:mac-of-timestamp] bytesId(arg1) == bytesId(expectedHMAC) && hashed[hash] == bytesId(timestampBytes) && hashKey[hash] == bytesId(s.key)
 //@   ensures [C03:accept-only-via-mac] res == nil ==> macOK
 //@   ensures [C03:errors] res == nil || errIs(res, errInvalidNonce)
+
+//@      // ---- CreatePermission (C01, C03, C04, C07): the callback runs once per XOR-PEER-ADDRESS attribute
+//@ spec func allocInv(a *allocation.Allocation) bool = allocWF(a) && permTimers(a) && chanTimers(a) && timersDisjoint(a) && chansWF(a) && chanPeersNonNil(a) && permKeysOK(a)
+
+//@ func handleCreatePermissionRequest$1
+//@   iterated
+//@   requires alloc != nil && authOK && alloc.userID == authUser && req.Log != nil && req.AllocationManager != nil
+//@   requires [:wf] allocWF(alloc)
+//@   requires [:permTimers] permTimers(alloc)
+//@   requires [:chanTimers] chanTimers(alloc)
+//@   requires [:timersDisjoint] timersDisjoint(alloc)
+//@   requires [:chansWF] chansWF(alloc) && chanPeersNonNil(alloc)
+//@   requires [C01:permKeys] permKeysOK(alloc)
+//@   at-call (*allocation.Manager).GrantPermission assert [C01:veto-subject] recv == req.AllocationManager && arg0 == req.SrcAddr && ipStr(arg1) == xorAddrIP(m, stun.AttrXORPeerAddress)
+//@   at-call (*allocation.Allocation).AddPermission assert [C01,C04:own-allocation] recv == alloc
+//@   at-call (*allocation.Allocation).AddPermission assert [C07:timeout] arg0.timeout == req.PermissionTimeout
+//@   at-call (*allocation.Allocation).AddPermission assert [C01:peer] peerMatches(arg0.Addr, m)
+//@   assigns entries(alloc.permissions), timers, granted, errorCode, addCount
+
+//@ func handleCreatePermissionRequest
+//@   requires reqWF(req) && ownWF(req) && stunMsg != nil && req.NonceHash != nil
+//@   fresh authOK, granted
+//@   at-call buildAndSend assert [C19:correlated] respondsTo(req, stunMsg, arg0, arg1, arg2)
+//@   at-call buildAndSend assert [C03,C19:success-only-authed] int(typeOf(arg2).Class) == 2 ==> authOK
+//@   at-call (*allocation.Manager).GetAllocationForUserID assert [C03,C04:own-tuple] recv == req.AllocationManager && ownTuple(arg0, req) && authOK && arg1 == authUser
+//@   ensures [C03:answered-only-requester] forall c :: c != req.Conn ==> pktWrites[c] == old(pktWrites[c])
